@@ -162,6 +162,11 @@ class UnitGen:
                     rest, opts = parse_opts(words[1:])
                     entries.append(('item', dict(file=rest[0], kind=rest[1], path=rest[2], opts=opts, origin=origin)))
                     cur_sec = None
+                elif d == 'irewrite':
+                    m = re.match(r'//!irewrite\s+(\w+)\s+<<<(.*)>>>\s*==>\s*<<<(.*)>>>\s*$', s)
+                    if not m or not entries or entries[-1][0] != 'item':
+                        raise ExtractError('bad irewrite directive at %s' % origin)
+                    entries[-1][1].setdefault('irewrites', []).append((m.group(1), m.group(2), m.group(3)))
                 elif d == 'fn':
                     rest, opts = parse_opts(words[1:])
                     if mode_override and 'mode' not in opts:
@@ -252,6 +257,15 @@ class UnitGen:
             body = body.replace('pub(crate)', 'pub', 1)
             irws.append(dict(id='RW8', frm='pub(crate)', to='pub'))
             g.rewrites.append(dict(fn=iid, id='RW8', frm='pub(crate)', to='pub'))
+        for rid, pat, rep in d.get('irewrites', []):
+            m = re.search(pat, body, re.S)
+            if not m:
+                g.lost_anchors.append('%s.rewrite.%s' % (iid, rid))
+                continue
+            new = m.expand(rep)
+            irws.append(dict(id=rid, frm=m.group(0), to=new))
+            g.rewrites.append(dict(fn=iid, id=rid, frm=m.group(0), to=new))
+            body = body[:m.start()] + new + body[m.end():]
         g.emit(body, kind='item', fn=iid, src='%s:%d' % (d['file'], rf.line_of(it.head_start)))
         g.emit('//@@end %s' % iid, kind='framework')
         dropped = [l.strip() for l in rf.text[it.start:it.head_start].split('\n')
@@ -335,6 +349,124 @@ class UnitGen:
         text = self.masked_sub(place + r'\s*\.\s*extend\((?P<arg>[A-Za-z_]\w*)\);', rw7, text)
         return text, rws
 
+    @staticmethod
+    def split_args(argtext):
+        """split at top-level commas (text must already be free of comments)"""
+        m = mask(argtext)
+        out, depth, last = [], 0, 0
+        for i, ch in enumerate(m):
+            if ch in '([{':
+                depth += 1
+            elif ch in ')]}':
+                depth -= 1
+            elif ch == ',' and depth == 0:
+                out.append(argtext[last:i].strip())
+                last = i + 1
+        tail = argtext[last:].strip()
+        if tail:
+            out.append(tail)
+        return out
+
+    def rw_format(self, text, rws):
+        """RW15: format!("l0{}l1{}..ln", a1, .., an) -> vfmt<n>("l0", &(a1), "l1", .., &(an), "ln").
+        Only format strings whose holes are all plain `{}` and that contain no other brace are rewritten."""
+        m_text = mask(text)
+        out, pos = [], 0
+        for m in re.finditer(r'\bformat!\(', m_text):
+            if m.start() < pos:
+                continue
+            close = match_close(m_text, m.end() - 1)
+            args = self.split_args(text[m.end():close])
+            if not args or not re.match(r'^"[^"\\]*"$', args[0]):
+                continue
+            lit = args[0][1:-1]
+            pieces = lit.split('{}')
+            if any('{' in p or '}' in p for p in pieces) or len(pieces) - 1 != len(args) - 1 or not 1 <= len(args) - 1 <= 3:
+                continue
+            parts = ['"%s"' % pieces[0]]
+            for a, pc in zip(args[1:], pieces[1:]):
+                parts += ['&(%s)' % a, '"%s"' % pc]
+            new = 'vfmt%d(%s)' % (len(args) - 1, ', '.join(parts))
+            rws.append(('RW15', text[m.start():close + 1], new))
+            out.append(text[pos:m.start()])
+            out.append(new)
+            pos = close + 1
+        out.append(text[pos:])
+        return ''.join(out)
+
+    def rw_entry(self, text, rws):
+        """RW16: match <map>.entry(<key>) { Entry::Occupied(<o>) => <A>, Entry::Vacant(<v>) => <B> }  (arms in either order)
+        -> { let vkey = <key>; if <map>.contains_key(&vkey) { <A'> } else { <B'> } }  where <o>.insert(x) / <v>.insert(x)
+        become <map>.insert(vkey, x).  Any other use of the entry binders leaves the text unchanged (and outside Verus)."""
+        m_text = mask(text)
+        m = re.search(r'\bmatch\s+(?P<map>self(?:\s*\.\s*\w+)+)\s*\.\s*entry\(', m_text)
+        if not m:
+            return text
+        kclose = match_close(m_text, m.end() - 1)
+        key = text[m.end():kclose].strip()
+        bo = m_text.index('{', kclose)
+        bc = match_close(m_text, bo)
+        arms_text = text[bo + 1:bc]
+        arms = self.split_arms(arms_text)
+        if arms is None or len(arms) != 2:
+            return text
+        got = {}
+        for pat, body in arms:
+            pm = re.match(r'^Entry::(Occupied|Vacant)\(\s*(?:mut\s+)?(_|[a-z_]\w*)\s*\)$', pat.strip())
+            if not pm or pm.group(1) in got:
+                return text
+            got[pm.group(1)] = (pm.group(2), body.strip())
+        if set(got) != {'Occupied', 'Vacant'}:
+            return text
+        mp = re.sub(r'\s+', '', text[m.start('map'):m.end('map')])
+        new_arms = {}
+        for k, (binder, body) in got.items():
+            if binder != '_':
+                body2 = re.sub(r'\b%s\s*\.\s*insert\(' % re.escape(binder), '%s.insert(vkey, ' % mp, body)
+                if re.search(r'\b%s\b' % re.escape(binder), mask(body2)):
+                    return text
+                body = body2
+            if not body.startswith('{'):
+                body = '{ ' + body + ' }'
+            new_arms[k] = body
+        ls = m_text.rfind('\n', 0, m.start()) + 1
+        ind = re.match(r'[ \t]*', text[ls:]).group(0)
+        new = '{\n%s    let vkey = %s;\n%s    if %s.contains_key(&vkey) %s else %s\n%s}' % (
+            ind, key, ind, mp, new_arms['Occupied'], new_arms['Vacant'], ind)
+        rws.append(('RW16', text[m.start():bc + 1], new))
+        return text[:m.start()] + new + text[bc + 1:]
+
+    @staticmethod
+    def split_arms(arms_text):
+        """[(pattern, body)] of a match whose arms are `pat => expr,` or `pat => { .. }`; None if not understood"""
+        m = mask(arms_text)
+        res, i, n = [], 0, len(m)
+        while True:
+            while i < n and m[i] in ' \t\n,':
+                i += 1
+            if i >= n:
+                break
+            j = m.find('=>', i)
+            if j < 0:
+                return None
+            pat = arms_text[i:j]
+            k = j + 2
+            while k < n and m[k] in ' \t\n':
+                k += 1
+            if k < n and m[k] == '{':
+                e = match_close(m, k) + 1
+            else:
+                depth, e = 0, k
+                while e < n and not (m[e] == ',' and depth == 0):
+                    if m[e] in '([{':
+                        depth += 1
+                    elif m[e] in ')]}':
+                        depth -= 1
+                    e += 1
+            res.append((pat, arms_text[k:e]))
+            i = e
+        return res
+
     def gen_fn(self, g, fd):
         rf = self.rf(fd.file)
         it = rf.find('fn', fd.path)
@@ -393,6 +525,16 @@ class UnitGen:
         rws = []
         if fd.mode == 'verify':
             text, rws = self.auto_rewrites(text)
+            if fd.opts.get('fmt') == '1':
+                text = self.rw_format(text, rws)
+                # the abstraction function of the unit was written for these literal pieces (the key format):
+                # if they change, the contract text describes the OLD representation -> the function is shaky
+                if 'fmtlits' in fd.opts:
+                    lits = ';'.join('|'.join(re.findall(r'"([^"]*)"', c)) for a, b, c in rws if a == 'RW15')
+                    if lits != fd.opts['fmtlits']:
+                        g.lost_anchors.append('%s.rewrite.RW15lits' % fid)
+            if fd.opts.get('entry') == '1':
+                text = self.rw_entry(text, rws)
             for sec in fd.sections:
                 if sec.kind == 'rewrite':
                     rid, pat, rep = sec.args
@@ -720,9 +862,12 @@ def roundtrip(gen_text, g):
             continue
         kept = [ln for ln in regions[it['id']] if not MARK_RE.search(ln)]
         txt = '\n'.join(kept)
-        for rw in it.get('rewrites', []):
+        for rw in reversed(it.get('rewrites', [])):
             if rw['to'] == 'pub':
                 txt = re.sub(r'\bpub\b(?!\()', rw['frm'], txt, count=1)
+            elif rw['to'] in txt:
+                k = txt.rfind(rw['to'])
+                txt = txt[:k] + rw['frm'] + txt[k + len(rw['to']):]
         if tokens(txt) != tokens(it['src_text']):
             problems.append('%s: item text differs from repository text' % it['id'])
     return problems
